@@ -7,7 +7,9 @@ CONSTANTS Tier      \* "quick" | "thorough"
 Chars(s) == s   \* names are written directly as sequences
 
 T_text == <<"M", "y", " ", "b", "o", "x">>
-MC_Titles == {T_text, T_text \o <<NL>>, <<>>}
+(* a title with a non-ASCII character: the two bytes of its UTF-8 encoding (the file is a byte sequence) *)
+T_uni == <<"t", "b195", "b169">>      \* pseudo characters "bNNN" = the byte NNN
+MC_Titles == IF Tier = "quick" THEN {T_text, T_text \o <<NL>>, <<>>} ELSE {T_text, T_text \o <<NL>>, <<>>, T_uni}
 
 MC_Declared == IF Tier = "quick" THEN {1, 2} ELSE {1, 2, 3}
 MC_Formats == IF Tier = "quick" THEN {<<6, 1>>, <<9, 4>>}
